@@ -701,7 +701,7 @@ structure ColOK (e : Env) (ps : St) : Prop where
 
 variable {ps : St}
 
-theorem companion_mk2 (hC : ColOK e ps) {r : Int} (r0 : 0 ≤ r) (r1 : r < e.m) : mk2 e.cenv (companion e ps) r = e.jcol - 1 := by
+theorem companion_mk2 (_hC : ColOK e ps) {r : Int} (r0 : 0 ≤ r) (r1 : r < e.m) : mk2 e.cenv (companion e ps) r = e.jcol - 1 := by
   unfold mk2
   show rd (List.replicate (3 * e.m).toNat (e.jcol - 1)).toArray (2 * e.m + r) = _
   exact rd_replicate (by omega) (by omega)
@@ -824,5 +824,107 @@ theorem panelCol_eq_dfsList (hC : ColOK e ps) {fuel : Nat} (hfuel : (e.jcol.toNa
   · rw [hS'.seg, hX, hpn]
   · intro t t0 t1
     rw [hS'.m1 t t0 t1, hX, hpn]
+
+/-! ### from the decidable predicate `wfPanelIn` -/
+
+section wf
+variable {V : Type} {i : Input V}
+open Slu.ColDfs (allBelow_iff mem_slice_iff adjRows)
+
+theorem wfPanelIn_unpack (h : wfPanelIn i = true) :
+    (0 ≤ i.jcol ∧ 1 ≤ i.w ∧ i.jcol + i.w ≤ i.m ∧ (i.perm_r.size : Int) = i.m ∧ (i.marker.size : Int) = 3 * i.m) ∧
+    ((i.repfnz.size : Int) = i.w * i.m ∧ i.jcol ≤ i.parent.size ∧ i.jcol ≤ i.xplore.size ∧ i.jcol ≤ i.segrep.size) ∧
+    (0 ≤ rd i.xlsub i.jcol ∧ rd i.xlsub i.jcol ≤ i.lsub.size) ∧
+    (∀ r : Nat, (r : Int) < i.m → rd i.perm_r r = EMPTY ∨ (0 ≤ rd i.perm_r r ∧ rd i.perm_r r < i.jcol)) ∧
+    (∀ r : Nat, (r : Int) < i.m → rd i.marker r < i.jcol) ∧
+    (∀ s : Nat, (s : Int) < i.jcol → rd i.marker (i.m + s) < i.jcol) ∧
+    (∀ x : Nat, (x : Int) < i.w * i.m → rd i.repfnz x = EMPTY) ∧
+    (∀ k : Nat, (k : Int) < i.jcol → (k : Int) ≤ repOf i.cenv k ∧ repOf i.cenv k < i.jcol ∧ repOf i.cenv (repOf i.cenv k) = repOf i.cenv k) ∧
+    (∀ s : Nat, (s : Int) < i.jcol → repOf i.cenv s = s →
+      0 ≤ rd i.xlsub s ∧ rd i.xlsub s ≤ rd i.xprune s ∧ rd i.xprune s ≤ rd i.xlsub i.jcol ∧
+      ∀ row ∈ adjRows i.cenv i.lsub s, 0 ≤ row ∧ row < i.m ∧ (rd i.perm_r row = EMPTY ∨ (s : Int) ≤ rd i.perm_r row)) ∧
+    (∀ k : Nat, (k : Int) < i.w → ∀ row ∈ colRows i (i.jcol + k), 0 ≤ row ∧ row < i.m) := by
+  simp only [wfPanelIn, Bool.and_eq_true, decide_eq_true_eq] at h
+  rcases h with ⟨⟨⟨⟨⟨⟨⟨⟨⟨⟨⟨⟨⟨⟨⟨⟨⟨⟨⟨h1, h2⟩, h3⟩, h4⟩, h5⟩, h6⟩, _⟩, _⟩, h9⟩, h10⟩, h11⟩, h12⟩, h13⟩, h14⟩, h15⟩, h16⟩, h17⟩, h18⟩, h19⟩, h20⟩
+  refine ⟨⟨h1, h2, h3, h4, h5⟩, ⟨h6, h9, h10, h11⟩, ⟨h12, h13⟩, ?_, ?_, ?_, ?_, ?_, ?_, ?_⟩
+  · intro r hr; have := allBelow_iff.mp h14 r hr; simpa using this
+  · intro r hr; have := allBelow_iff.mp h15 r hr; simpa using this
+  · intro r hr; have := allBelow_iff.mp h16 r hr; simpa using this
+  · intro r hr; have := allBelow_iff.mp h17 r hr; simpa using this
+  · intro k hk; have := allBelow_iff.mp h18 k hk; simpa [and_assoc] using this
+  · intro s hs hrs
+    have := allBelow_iff.mp h19 s hs
+    simp only [Bool.or_eq_true, Bool.and_eq_true, decide_eq_true_eq, List.all_eq_true, ne_eq, decide_not,
+      Bool.not_eq_true', decide_eq_false_iff_not] at this
+    rcases this with h | h
+    · exact absurd hrs h
+    · obtain ⟨⟨⟨a, b⟩, c⟩, d⟩ := h
+      exact ⟨a, b, c, fun row hrow => by have := d row hrow; simpa [and_assoc] using this⟩
+  · intro k hk row hrow
+    have := allBelow_iff.mp h20 k hk
+    simp only [Bool.and_eq_true, decide_eq_true_eq, List.all_eq_true] at this
+    have := this.2 row hrow
+    simpa using this
+
+theorem wfPanelIn_env (h : wfPanelIn i = true) : EnvOK i.cenv i.lsub i.lsub.size := by
+  obtain ⟨⟨a1, a2, a3, a4, a5⟩, _, ⟨c1, c2⟩, hperm, _, _, _, hrep, hlists, _⟩ := wfPanelIn_unpack h
+  refine ⟨a1, (by show 0 ≤ i.m; omega), ?_, ?_, ?_⟩
+  · intro r r0 r1
+    obtain ⟨k, rfl⟩ := Int.eq_ofNat_of_zero_le r0
+    exact hperm k r1
+  · intro k k0 k1
+    obtain ⟨n, rfl⟩ := Int.eq_ofNat_of_zero_le k0
+    exact hrep n k1
+  · intro s s0 s1 hs
+    obtain ⟨n, rfl⟩ := Int.eq_ofNat_of_zero_le s0
+    obtain ⟨x1, x2, x3, x4⟩ := hlists n s1 hs
+    refine ⟨x1, x2, by show rd i.xprune _ ≤ _; omega, fun x hx1 hx2 => x4 _ ?_⟩
+    exact (mem_slice_iff x1).mpr ⟨x, hx1, hx2, rfl⟩
+
+theorem env_off (i : Input V) (k : Int) : (i.env (i.jcol + k)).off = k * i.m := by
+  show (i.jcol + k - i.jcol) * i.m = k * i.m
+  congr 1; omega
+
+theorem wfPanelIn_penv (h : wfPanelIn i = true) {k : Int} (k0 : 0 ≤ k) : PEnvOK (i.env (i.jcol + k)) := by
+  obtain ⟨⟨a1, a2, a3, a4, a5⟩, _⟩ := wfPanelIn_unpack h
+  refine ⟨wfPanelIn_env h, by show i.jcol ≤ i.m; omega, by show i.jcol ≤ i.jcol + k; omega, ?_⟩
+  rw [env_off]
+  exact Int.mul_nonneg k0 (by omega)
+
+/-- the first column of the panel starts in a state accepted by `ColOK` -/
+theorem wfPanelIn_colOK0 (h : wfPanelIn i = true) : ColOK (i.env i.jcol) { i.st0 with nextl := (i.env i.jcol).off } := by
+  obtain ⟨⟨a1, a2, a3, a4, a5⟩, ⟨b1, b2, b3, b4⟩, _, _, hmk, _, hfresh, _, _, _⟩ := wfPanelIn_unpack h
+  have hpe := wfPanelIn_penv h (k := 0) (le_refl _)
+  rw [Int.add_zero] at hpe
+  have hoff : (i.env i.jcol).off = 0 := by
+    have := env_off i 0; rw [Int.add_zero] at this; rw [this]; simp
+  have hwm : i.m ≤ i.w * i.m := by
+    have : 1 * i.m ≤ i.w * i.m := Int.mul_le_mul_of_nonneg_right a2 (by omega)
+    omega
+  refine { env := hpe, szM := a5, szR := ?_, szP := b2, szX := b3, szS := b4, fresh := ?_, unmarked := ?_,
+           nseg0 := le_refl _, sgnd := ?_, sgrng := ?_ }
+  · rw [hoff]; show 0 + i.m ≤ (i.repfnz.size : Int); omega
+  · intro s s0 s1
+    obtain ⟨n, rfl⟩ := Int.eq_ofNat_of_zero_le s0
+    unfold fnz; rw [hoff]
+    show rd i.repfnz (0 + (n : Int)) = EMPTY
+    rw [Int.zero_add]
+    exact hfresh n (by have : (n : Int) < i.jcol := s1; omega)
+  · intro r r0 r1
+    obtain ⟨n, rfl⟩ := Int.eq_ofNat_of_zero_le r0
+    have := hmk n r1
+    show rd i.marker n ≠ i.jcol
+    omega
+  · show (slice i.segrep 0 0).Nodup
+    rw [slice_nil]; exact nodup_nil
+  · intro t ht
+    have ht' : t ∈ slice i.segrep 0 0 := ht
+    rw [slice_nil] at ht'; simp at ht'
+
+theorem wfPanelIn_rows (h : wfPanelIn i = true) {k : Nat} (hk : (k : Int) < i.w) :
+    ∀ r ∈ colRows i (i.jcol + k), 0 ≤ r ∧ r < (i.env (i.jcol + k)).m :=
+  (wfPanelIn_unpack h).2.2.2.2.2.2.2.2.2 k hk
+
+end wf
 
 end Slu.PanelDfs
